@@ -75,6 +75,9 @@ type In struct {
 	Hist    []Ev     `json:"hist"`
 	Segs    []Seg    `json:"segs"`
 	Queries []uint32 `json:"queries"`
+	// Faults: the FIRST attempt to process every block that carries an event meets a storage fault on the statement that writes
+	// the event (insert or delete of imported_global_exit_root aborts); the driver retries and the retry finds the store healthy
+	Faults bool `json:"faults,omitempty"`
 }
 
 type OutEv struct {
@@ -301,10 +304,43 @@ type recProc struct {
 	*lastgersync.VerifC16Processor
 	mu        gosync.Mutex
 	delivered []OutBlock
+	faults    bool
+	failed    map[uint64]bool // blocks whose first attempt has met the fault
 }
 
+const (
+	armFaults = `CREATE TRIGGER IF NOT EXISTS verif_c16_del BEFORE DELETE ON imported_global_exit_root BEGIN SELECT RAISE(ABORT, 'verif: injected storage fault'); END;
+CREATE TRIGGER IF NOT EXISTS verif_c16_ins BEFORE INSERT ON imported_global_exit_root BEGIN SELECT RAISE(ABORT, 'verif: injected storage fault'); END;`
+	disarmFaults = `DROP TRIGGER IF EXISTS verif_c16_del; DROP TRIGGER IF EXISTS verif_c16_ins;`
+)
+
 func (r *recProc) ProcessBlock(ctx context.Context, b sync.Block) error {
+	if r.faults && len(b.Events) > 0 && b.Num != barrierBlock && !r.failed[b.Num] {
+		// first attempt at this block: the statement that writes its event aborts. A processor that reports the failure is asked
+		// again by the driver (below, with the store healthy); one that returns nil has committed the block without its event
+		r.failed[b.Num] = true
+		d := lastgersync.VerifC16DB(r.VerifC16Processor)
+		if _, err := d.Exec(armFaults); err != nil {
+			panic(err)
+		}
+		err := r.VerifC16Processor.ProcessBlock(ctx, b)
+		if _, derr := d.Exec(disarmFaults); derr != nil {
+			panic(derr)
+		}
+		if err != nil {
+			return err
+		}
+		return r.record(b)
+	}
 	err := r.VerifC16Processor.ProcessBlock(ctx, b)
+	if err != nil {
+		return err
+	}
+	return r.record(b)
+}
+
+func (r *recProc) record(b sync.Block) error {
+	var err error
 	if err == nil {
 		ob := OutBlock{B: b.Num, Evs: []OutEv{}}
 		for _, e := range b.Events {
@@ -363,7 +399,7 @@ func startNode(dbPath string, mk dlFactory) (*node, error) {
 	if err != nil {
 		return nil, err
 	}
-	rp := &recProc{VerifC16Processor: p}
+	rp := &recProc{VerifC16Processor: p, faults: nodeFaults, failed: map[uint64]bool{}}
 	rh := &sync.RetryHandler{RetryAfterErrorPeriod: 0, MaxRetryAttemptsAfterError: 3}
 	bf, err := aggkittypes.LatestBlock.ToBlockNum()
 	if err != nil {
@@ -472,6 +508,7 @@ func observe(n *node, queries []uint32, stuck bool) SegObs {
 
 var tmpRoot string
 var caseNo int
+var nodeFaults bool // In.Faults of the case being run (read by startNode)
 
 func run(in In) (out Out) {
 	out = Out{In: in, Segs: []SegObs{}}
@@ -482,6 +519,8 @@ func run(in In) (out Out) {
 			os.Remove(dbPath + sfx)
 		}
 	}()
+	nodeFaults = in.Faults
+	defer func() { nodeFaults = false }()
 	sim := &l2sim{gers: in.Gers}
 	sim.setChain(in.Hist)
 	li := &l1info{idx: map[common.Hash]uint32{}, lag: map[common.Hash]int{}, calls: map[common.Hash]int{}}
@@ -844,6 +883,12 @@ func fixedCases() []In {
 		// jump of exactly 1000 blocks, then 5000
 		mk(g(1, 2, 3, 4, 5, 6, 7), []Ev{{B: 1001, G: 0}, {B: 2001, G: 1}, {B: 2002, G: 2}, {B: 3001, Rm: true, G: 0}, {B: 5001, G: 3},
 			{B: 6001, G: 4}, {B: 6002, G: 5}}, Seg{Polls: []uint64{1, 1001, 6001, 6002}}),
+		// jumps beyond 5000 blocks (a node that was down for long): 5001 for the running downloader, 7000 for a restarted one; roots and a
+		// removal in every thousand of the gap, the last root of the gap carrying the largest index
+		mk(g(1, 2, 3, 4, 5, 6, 7, 8), []Ev{{B: 2, G: 0}, {B: 1500, G: 1}, {B: 3500, G: 2}, {B: 5001, G: 3}, {B: 5002, Rm: true, G: 0}, {B: 5003, G: 4},
+			{B: 5004, G: 5}}, Seg{Polls: []uint64{2, 5003, 5004}}),
+		mk(g(1, 2, 3, 4, 5, 6, 7, 8), []Ev{{B: 2, G: 0}, {B: 100, G: 1}, {B: 4999, G: 2}, {B: 5003, G: 3}, {B: 5500, G: 4}, {B: 6500, Rm: true, G: 1},
+			{B: 7001, G: 5}, {B: 7003, Rm: true, G: 0}}, Seg{Polls: []uint64{2}}, Seg{Polls: []uint64{7001, 7003}}),
 		// the L1 info tree syncer is two lookups behind for the only root: the downloader must wait for it, not drop it
 		mk([]GerDef{{Hash: ger(1).Hash, Idx: 4, Lag: 2}}, []Ev{{B: 2, G: 0}}, Seg{Polls: []uint64{3}}),
 		// ... same while the node is restarted, and with a second root that is not lagging
@@ -856,13 +901,25 @@ func fixedCases() []In {
 
 func gen(f *hlib.Flags) []In {
 	ins := fixedCases()
+	for _, c := range fixedCases() { // the fixed histories that remove a root, again under storage faults
+		hasRm := false
+		for _, e := range c.Hist {
+			hasRm = hasRm || e.Rm
+		}
+		if hasRm {
+			c.Faults = true
+			ins = append(ins, c)
+		}
+	}
 	rng := hlib.NewRng(f.Seed)
 	for i := 0; i < f.N; i++ {
 		if i%25 == 7 { // few: each costs the model a walk over thousands of blocks
 			ins = append(ins, genBigCase(rng))
 			continue
 		}
-		ins = append(ins, genCase(rng, f.Tier == "thorough"))
+		c := genCase(rng, f.Tier == "thorough")
+		c.Faults = i%8 == 3 // no random draw: the histories are the ones of the earlier runs
+		ins = append(ins, c)
 	}
 	return ins
 }
